@@ -494,6 +494,7 @@ type SpecFunc struct {
 	Result string
 	Body   SExpr
 	Rec    bool
+	Ghost  bool // uninterpreted
 	Text   string
 	File   string
 	Line   int
@@ -512,10 +513,11 @@ type ContractSet struct {
 	Funcs     map[string]*SpecFunc
 	Files     []string
 	Globals   []*GlobalFact
+	FuncTypes map[string]*Contract // contracts of named function types: pkgpath.TypeName
 }
 
 func NewContractSet() *ContractSet {
-	return &ContractSet{Contracts: map[string]*Contract{}, Funcs: map[string]*SpecFunc{}}
+	return &ContractSet{Contracts: map[string]*Contract{}, Funcs: map[string]*SpecFunc{}, FuncTypes: map[string]*Contract{}}
 }
 
 var headerRe = regexp.MustCompile(`^func\s*(\([^)]*\))?\s*([A-Za-z0-9_.$/\-]+)\s*(\(.*)$`)
@@ -665,6 +667,37 @@ func (cs *ContractSet) LoadContractFile(path, pkgPath string) error {
 				return fmt.Errorf("%s:%d: duplicate contract for %s", path, l.no, key)
 			}
 			cs.Contracts[key] = cur
+			curLoop = nil
+		case word == "ghost":
+			if err := finishClause(); err != nil {
+				return err
+			}
+			m := regexp.MustCompile(`^ghost\s+func\s+([A-Za-z0-9_]+)\s*\(([^)]*)\)\s*([A-Za-z0-9_.\[\]*]+)\s*$`).FindStringSubmatch(t)
+			if m == nil {
+				return fmt.Errorf("%s:%d: cannot parse ghost function %q", path, l.no, t)
+			}
+			sf := &SpecFunc{Name: m[1], Result: m[3], Ghost: true, File: path, Line: l.no, PkgPath: pkgPath}
+			if strings.TrimSpace(m[2]) != "" {
+				for _, p := range strings.Split(m[2], ",") {
+					fs := strings.Fields(p)
+					if len(fs) != 2 {
+						return fmt.Errorf("%s:%d: ghost function parameter %q needs a name and a type", path, l.no, p)
+					}
+					sf.Params = append(sf.Params, SVar{fs[0], fs[1]})
+				}
+			}
+			cs.Funcs[sf.Name] = sf
+			cur = nil
+		case word == "functype":
+			if err := finishClause(); err != nil {
+				return err
+			}
+			_, name, params, results, err := parseHeader("func " + rest)
+			if err != nil {
+				return fmt.Errorf("%s:%d: %v", path, l.no, err)
+			}
+			cur = &Contract{Key: pkgPath + "." + name, Header: t, Params: params, Results: results, Loops: map[int]*LoopSpec{}, File: path, Line: l.no, Opts: map[string]string{}}
+			cs.FuncTypes[cur.Key] = cur
 			curLoop = nil
 		case word == "global":
 			if err := finishClause(); err != nil {
